@@ -5,6 +5,6 @@ From Flatcc.Ident Require Import IdentModel.
 Extraction Language OCaml.
 Extraction "../ocaml/ident/model.ml"
   of_list fnv1a32 type_hash_from_name compile_type_hash compile_type_identifier qualified_name
-  identifier_from_type_hash type_hash_from_identifier type_hash_from_string
+  identifier_from_type_hash identifier_from_name type_hash_from_identifier type_hash_from_string
   builder_id_field id_pos verify_buffer_header verify_buffer_header_with_size has_identifier
   printer_accept_header stored_identifier.
